@@ -74,6 +74,7 @@ class ProblemModel:
     cache_attrs: set
     model_attrs: set
     assigned_outside: dict
+    cond_reset: set = None
 
 
 def none_reset_only(P, attr):
@@ -104,24 +105,67 @@ def problem_model(prog, rep=None) -> ProblemModel:
             init_attrs[a] = n.value
     rep.saw("Problem.__init__ attributes", sorted(init_attrs))
 
-    # ---- invalidator: a method whose body consists only of `self.x = None` resets (>= 2)
+    # ---- invalidator: a method whose body consists of resets of self attributes to an empty value (None, [], {}, set(),
+    #      False, 0), at least two of them to None; resets may sit under an `if` (then they are conditional), and
+    #      bookkeeping statements (a counter, a log call) do not disqualify it
+    def empty_value(v):
+        if isinstance(v, ast.Constant):
+            return v.value is None or v.value is False or v.value == 0
+        if isinstance(v, (ast.List, ast.Tuple, ast.Set)):
+            return not v.elts
+        if isinstance(v, ast.Dict):
+            return not v.keys
+        if isinstance(v, ast.Call) and dotted(v.func) in ("list", "dict", "set", "tuple", "frozenset") and not v.args and not v.keywords:
+            return True
+        return False
+
+    def reset_targets(s):
+        """attributes of self reset by statement s, or None if s is not a reset statement."""
+        if isinstance(s, ast.AnnAssign):
+            if isinstance(s.target, ast.Attribute) and dotted(s.target.value) == "self" and s.value is not None and empty_value(s.value):
+                return [(s.target.attr, s.value)]
+            return None
+        if isinstance(s, ast.Assign) and all(isinstance(t, ast.Attribute) and dotted(t.value) == "self" for t in s.targets) and empty_value(s.value):
+            return [(t.attr, s.value) for t in s.targets]
+        return None
+
+    def bookkeeping(s):
+        return isinstance(s, ast.Pass) or (isinstance(s, ast.Expr) and isinstance(s.value, ast.Call)) or \
+            (isinstance(s, ast.AugAssign) and isinstance(s.target, ast.Attribute) and dotted(s.target.value) == "self")
+
+    def scan(stmts, cond):
+        """-> (unconditional resets, conditional resets, ok?)"""
+        un, co = [], []
+        for s in stmts:
+            r = reset_targets(s)
+            if r is not None:
+                (co if cond else un).extend(r)
+            elif isinstance(s, ast.If):
+                u1, c1, ok1 = scan(s.body, True)
+                u2, c2, ok2 = scan(s.orelse, True)
+                if not (ok1 and ok2):
+                    return un, co, False
+                co += u1 + c1 + u2 + c2
+            elif bookkeeping(s):
+                continue
+            else:
+                return un, co, False
+        return un, co, True
+
     invalidators = []
     for m in P.methods.values():
+        if m is init:
+            continue
         body = [s for s in m.node.body if not (isinstance(s, ast.Expr) and isinstance(s.value, ast.Constant))]
-        def reset_stmt(s):
-            # self.a = None   /   self.a = self.b = None   /   self.a: T = None
-            if isinstance(s, ast.AnnAssign):
-                return isinstance(s.target, ast.Attribute) and dotted(s.target.value) == "self" and isinstance(s.value, ast.Constant) and s.value.value is None
-            return (isinstance(s, ast.Assign) and all(isinstance(t, ast.Attribute) and dotted(t.value) == "self" for t in s.targets)
-                    and isinstance(s.value, ast.Constant) and s.value.value is None)
-
-        n_reset = sum(len(s.targets) if isinstance(s, ast.Assign) else 1 for s in body if reset_stmt(s))
-        if body and n_reset >= 2 and all(reset_stmt(s) for s in body):
-            invalidators.append(m)
+        un, co, ok = scan(body, False)
+        n_none = sum(1 for _a, v in un if isinstance(v, ast.Constant) and v.value is None)
+        if body and ok and n_none >= 2:
+            invalidators.append((m, un, co))
     if len(invalidators) > 1:
         raise AnalysisError("more than one invalidator-shaped method in Problem")
-    inval = invalidators[0] if invalidators else None
-    reset = ({t.attr for s in inval.node.body if isinstance(s, ast.Assign) for t in s.targets} | {s.target.attr for s in inval.node.body if isinstance(s, ast.AnnAssign)}) if inval else set()
+    inval = invalidators[0][0] if invalidators else None
+    reset = {a for a, _v in invalidators[0][1]} if invalidators else set()
+    cond_reset = ({a for a, _v in invalidators[0][2]} - reset) if invalidators else set()
     rep.saw("invalidator", inval.qual if inval else None)
 
     # ---- cache attributes: memo pattern (tested against None and assigned) anywhere in the package,
@@ -171,15 +215,43 @@ def problem_model(prog, rep=None) -> ProblemModel:
                     continue  # resetting a cache to None is not a model edit
                 if a in init_attrs and not (a in none_reset_only(P, a)):
                     model_attrs.add(a)
-    # attributes that are only ever tested against None and memoised are caches even if a public method assigns them
-    model_attrs -= {a for a in model_attrs if a in memo and a in reset}
-    cache_attrs = (set(assigned_outside) | set(memo) | set(reset)) - model_attrs
+    # attributes that are tested against None and memoised in the same function are caches even if a public method assigns
+    # them (whether the invalidator resets them is R13.2's question, not part of the definition)
+    model_attrs -= {a for a in model_attrs if a in memo}
+    # an attribute nothing reads is bookkeeping (a solve counter, the last method used), not part of the model: it cannot
+    # reach a derived artefact.  Reads: `<problem>.a` loads anywhere in the package, or loads of a property that returns it,
+    # provided that property is itself read somewhere; __repr__/__str__ do not count.
+    prop_of = {}
+    for m in P.methods.values():
+        if "property" in [ast.unparse(d) for d in m.node.decorator_list]:
+            for r in walk_local(m.node, include_self=False):
+                if isinstance(r, ast.Return) and isinstance(r.value, ast.Attribute) and dotted(r.value.value) == "self":
+                    prop_of.setdefault(r.value.attr, set()).add(m.name)
+    loads = {}
+    for fi in prog.functions.values():
+        if fi.name in ("__repr__", "__str__"):
+            continue
+        for n in walk_local(fi.node, include_self=False):
+            if isinstance(n, ast.Attribute) and isinstance(n.ctx, ast.Load):
+                loads.setdefault(n.attr, set()).add(fi.qual)
+    def is_read(a):
+        direct = {q for q in loads.get(a, set()) if not any(q.endswith(f"Problem.{p_}") for p_ in prop_of.get(a, ()))}
+        via_prop = any(loads.get(p_) for p_ in prop_of.get(a, ()))
+        return bool(direct) or via_prop
+    unread = {a for a in model_attrs if not is_read(a)}
+    if unread:
+        rep.saw("write-only Problem attributes (bookkeeping, not model fields)", sorted(unread))
+    model_attrs -= unread
+    cache_attrs = (set(assigned_outside) | set(memo) | set(reset) | set(cond_reset)) - model_attrs
+    cache_attrs = {a for a in cache_attrs if is_read(a) or a in reset or a in cond_reset}
     rep.saw("model fields", sorted(model_attrs))
     rep.saw("cache fields", sorted(cache_attrs))
     if not model_attrs:
         raise AnalysisError("no model fields found in Problem (idiom not recognised)")
 
-    return ProblemModel(P, init, inval, reset, init_attrs, cache_attrs, model_attrs, assigned_outside)
+    pm_ = ProblemModel(P, init, inval, reset, init_attrs, cache_attrs, model_attrs, assigned_outside)
+    pm_.cond_reset = cond_reset
+    return pm_
 
 
 def bound_expr_problem(expr, env=None):
@@ -221,6 +293,11 @@ def cache_inplace_mutations(prog, pm):
                     level1[nm] = f"{v.value.id}.{v.attr}"
                 if isinstance(v, ast.Subscript) and isinstance(v.value, ast.Name) and v.value.id in level0:
                     level1[nm] = src(v)
+                # X = cached.m() where m hands out an object it keeps on self (no copy): X is part of the cached object
+                if isinstance(v, ast.Call) and isinstance(v.func, ast.Attribute) and isinstance(v.func.value, ast.Name) and v.func.value.id in level0:
+                    kept = _returns_kept_object(prog, v.func.attr)
+                    if kept:
+                        level1[nm] = f"{v.func.value.id}.{v.func.attr}() (the object kept in self.{kept}, returned without a copy)"
         # entries of local dicts that hold (a part of) the cached object: {"c": lp_data.c}, kwargs["c"] = c
         def cached_part(v):
             if isinstance(v, ast.Attribute) and isinstance(v.value, ast.Name) and v.value.id in level0:
@@ -264,6 +341,27 @@ def cache_inplace_mutations(prog, pm):
     return out
 
 
+def _returns_kept_object(prog, meth):
+    """attr when exactly one class of the package defines method ``meth`` and every return of it is `self.<attr>` (an object
+    stored on the instance, handed out by reference); None otherwise."""
+    owners = [c for c in prog.classes.values() if meth in c.methods]
+    if len(owners) != 1:
+        return None
+    m = owners[0].methods[meth]
+    rets = [r.value for r in walk_local(m.node, include_self=False) if isinstance(r, ast.Return)]
+    attrs = set()
+    asg = local_assignments(m.node)
+    for r in rets:
+        if isinstance(r, ast.Attribute) and dotted(r.value) == "self":
+            attrs.add(r.attr)
+        elif isinstance(r, ast.Name) and any(isinstance(t, ast.Attribute) and dotted(t.value) == "self" for n in walk_local(m.node, include_self=False) if isinstance(n, ast.Assign) and isinstance(n.value, ast.Name) and n.value.id == r.id for t in n.targets):
+            # `self._kept = args; return args`
+            attrs |= {t.attr for n in walk_local(m.node, include_self=False) if isinstance(n, ast.Assign) and isinstance(n.value, ast.Name) and n.value.id == r.id for t in n.targets if isinstance(t, ast.Attribute)}
+        else:
+            return None
+    return sorted(attrs)[0] if len(attrs) == 1 else None
+
+
 def helper_closure(prog, fi, depth=3):
     """``fi`` plus the helpers it reaches inside its own class (self.m(...) / self.prop) and module (f(...)), to the
     given depth.  Rules that ask "does F do X" search this closure, so that moving X into a helper does not read as
@@ -305,4 +403,34 @@ def constructor_fields(prog, cls_name, call):
     for k in call.keywords:
         if k.arg:
             out[k.arg] = k.value
+    return out
+
+
+def cache_entry_stores(prog, key, module_ok=None):
+    """[(function, value node, that function's local assignments)] for every place the package stores a value under
+    the string key ``key`` of a dict: `X["key"] = v`, a dict display `{"key": v, ...}`, `dict(key=v)` and
+    `X.update(key=v)` / `X.setdefault("key", v)`."""
+    out = []
+    for f2 in prog.functions.values():
+        if module_ok is not None and not module_ok(f2.module):
+            continue
+        a2 = None
+        for n in walk_local(f2.node, include_self=False):
+            vals = []
+            if isinstance(n, ast.Assign):
+                for t in n.targets:
+                    if isinstance(t, ast.Subscript) and isinstance(t.slice, ast.Constant) and t.slice.value == key:
+                        vals.append(n.value)
+            elif isinstance(n, ast.Dict):
+                vals += [v for k, v in zip(n.keys, n.values) if isinstance(k, ast.Constant) and k.value == key]
+            elif isinstance(n, ast.Call):
+                d = dotted(n.func) or ""
+                if d == "dict" or (isinstance(n.func, ast.Attribute) and n.func.attr == "update"):
+                    vals += [kw.value for kw in n.keywords if kw.arg == key]
+                if isinstance(n.func, ast.Attribute) and n.func.attr == "setdefault" and len(n.args) == 2 and isinstance(n.args[0], ast.Constant) and n.args[0].value == key:
+                    vals.append(n.args[1])
+            for v in vals:
+                if a2 is None:
+                    a2 = local_assignments(f2.node)
+                out.append((f2, v, a2))
     return out
